@@ -68,9 +68,13 @@ def xy_classification(sym, n, lk):
         Y = Yv; args = (X, Y, 'c')
     # Environments[i] appends Finalize (one-hot etc.); the un-finalized pipeline is what the statement describes
     env = Environments.from_supervised(*args)._envs if sym.flag('via_envs') else [SupervisedSimulation(*args)]
+    X0, Yv0 = list(X), list(Yv)
+    if n >= 1 and sym.flag('caller_reuses_lists'):
+        # the caller goes on using its own lists after the environment was built from them (appends the next example)
+        X.append(X0[0]); Y.append(Y[0])
     inter = list(env[0].read())
     inter = [dict(i) for i in inter]
-    check_classification(sym, inter, X, Yv, f"(X,Y) {lk}", levels)
+    check_classification(sym, inter, X0, Yv0, f"(X,Y) {lk}", levels)
 
 @obligation('C14','xy_regression', bounds="<=3 examples, symbolic real targets k/4 or plain int targets, symbolic probe action; type 'r'/'R' or inferred: reward == -|a-y|; no action list; type explicit 'r' or inferred from numeric labels",
             functions=FUNCS, params=lambda tier: [dict(n=n) for n in ((1,2,3) if tier == 'quick' else (1,2,3,4))])
@@ -124,6 +128,10 @@ def sources(sym, fmt):
         pos = sym.choice('pos', ['first','last'])
         rows = [([l,str(a),str(b)] if pos == 'first' else [str(a),str(b),l]) for l,(a,b) in zip(labels,feats)]
         hdr = ['y','p','q'] if pos == 'first' else ['p','q','y']
+        quoted = sym.flag('quoted_last_record')          # only the LAST record needs quotes: its first feature holds a comma
+        if quoted:
+            k = 1 if pos == 'first' else 0
+            rows[2][k] = '"' + rows[2][k] + ',5"'
         if fmt == 'csv':
             lines = [",".join(r) for r in rows]
             src = CsvSource(ListSource(lines)); col = 0 if pos == 'first' else 2
@@ -131,6 +139,7 @@ def sources(sym, fmt):
             lines = [",".join(hdr)] + [",".join(r) for r in rows]
             src = CsvSource(ListSource(lines), has_header=True); col = 'y' if sym.flag('byname') else (0 if pos == 'first' else 2)
         X = [[str(a),str(b)] for a,b in feats]; Yv = labels; levels = None
+        if quoted: X[2][0] = X[2][0] + ',5'
         env = SupervisedSimulation(src, col, 'c', take) if sym.flag('positional') else SupervisedSimulation(source=src, label_col=col, label_type='c', take=take)
     elif fmt in ('arff','arff_sparse'):
         lines = ["@relation t","@attribute p numeric","@attribute y {A,B}","@attribute q numeric","@data"]
